@@ -1086,12 +1086,24 @@ func convertZToMinAltitudekey(inputIndex int64, inputZoom int64, outputZoom int6
 	}
 
 	// 2. Calculate outputIndex
-	outputIndex := common.CalculateArithmeticShift(inputIndex, -(inputZoom - consts.ZOriginValue))
-	outputIndex += zBaseOffset
-	if arithmeticShiftOverflows(outputIndex, outputZoom-zBaseExponent) {
+	// For voxels thinner than 1m the index is kept in units of the voxel height (the offset is
+	// scaled up instead of the index being scaled down), so that no low bits of the index are lost.
+	outputIndex := inputIndex
+	outputShift := outputZoom - zBaseExponent
+	if fineShift := inputZoom - consts.ZOriginValue; fineShift > 0 {
+		if arithmeticShiftOverflows(zBaseOffset, fineShift) {
+			return 0, errors.NewSpatialIdError(errors.InputValueErrorCode, "output index does not exist with given outputZoom, zBaseExponent, and zBaseOffset")
+		}
+		outputIndex += common.CalculateArithmeticShift(zBaseOffset, fineShift)
+		outputShift -= fineShift
+	} else {
+		outputIndex = common.CalculateArithmeticShift(inputIndex, -fineShift)
+		outputIndex += zBaseOffset
+	}
+	if arithmeticShiftOverflows(outputIndex, outputShift) {
 		return 0, errors.NewSpatialIdError(errors.InputValueErrorCode, "output index does not exist with given outputZoom, zBaseExponent, and zBaseOffset")
 	}
-	outputIndex = common.CalculateArithmeticShift(outputIndex, (outputZoom - zBaseExponent))
+	outputIndex = common.CalculateArithmeticShift(outputIndex, outputShift)
 
 	// 3. Check to make sure outputIndex exists in the output system
 	_, ok = validateIndexExists(outputIndex, outputZoom, false)
